@@ -8,6 +8,7 @@ import Pdlv.Seg
 import Pdlv.Analyzer
 import Pdlv.ToJson
 import Pdlv.Syntax
+import Pdlv.Backend
 
 namespace Pdlv.Driver
 open Lean (Json)
@@ -221,6 +222,12 @@ def handle (st : State) (req : Json) : Except String (State × Json) := do
       pure (st, Json.mkObj [("status", "err"), ("diagnostics", Json.arr (ds.map fun d =>
         Json.mkObj [("code", Json.str s!"E{d.code}"), ("labels", Json.arr (d.labels.map rangeJ).toArray)]).toArray)])
     | .panic p => pure (st, Json.mkObj [("status", "panic"), ("site", Json.str (reprStr p))])
+  | "backend_pre" =>
+    -- {"op":"backend_pre","file":<analyzed ast json>} -> per back end, the broken preconditions
+    let f ← J.file (← req.getObjVal? "file")
+    let one (t : Backend.Target) : Json := Json.arr ((Backend.pre t f).map fun r => Json.str r.name).toArray
+    pure (st, Json.mkObj [("status", "ok"), ("pre", Json.mkObj [("json", one .json), ("rust", one .rust),
+      ("python", one .python), ("cxx", one .cxx), ("java", one .java)])])
   | "parse" =>
     let text ← J.str req "text"
     match Syntax.parse text.toUTF8.data with
